@@ -343,6 +343,114 @@ def work_requests(arg):
     return part.dump()
 
 
+def gen_callgraph(rng):
+    """a module of single-return functions calling each other (cycles included), some ending in a class instance,
+    a literal or a multiply-bound result variable - evaluating f().attr walks the evaluator's in-progress guard and
+    its memo layers"""
+    n = rng.randint(3, 6)
+    lines = ['class N0(object):', '    def __init__(self):', '        self.a0 = 1', '        self.b0 = []', '',
+             'class N1(N0):', '    def __init__(self):', '        self.a1 = 2', '    def m1(self):', '        return N0()', '']
+    leaves = ['N0()', 'N1()', "'s'", '[]', 'N1().m1()']
+    for i in range(n):
+        def callee():
+            return 'f%d(t)' % rng.randrange(n)
+        form = rng.choice(['branch', 'branch', 'direct', 'chain'])
+        lines.append('def f%d(t):' % i)
+        if form == 'direct':
+            lines.append('    return %s' % (callee() if rng.random() < 0.6 else rng.choice(leaves)))
+        elif form == 'chain':
+            lines.append('    r = %s' % callee())
+            lines.append('    return r')
+        else:
+            a, b = rng.choice(leaves), callee()
+            if rng.random() < 0.5:
+                a, b = b, a
+            lines += ['    if not t:', '        r = %s' % a, '    else:', '        r = %s' % b, '    return r']
+        lines.append('')
+    return '\n'.join(lines), n
+
+
+def work_requests_eval(arg):
+    """request-level histories that exercise attribute evaluation across project modules: G-class projects plus a
+    call-graph module; one long-lived Project against fresh Projects."""
+    from vf import gen_class
+    from supp.project import Project
+    from supp import linter, assistant
+    part = core.Part()
+    for i in range(arg['start'], arg['start'] + arg['count']):
+        rng = random.Random('%s:C04:reqeval:%d' % (arg['seed'], i))
+        root = tempfile.mkdtemp(prefix='vf-c04e-')
+        try:
+            proj = gen_class.gen_project(rng, {'max_queries': 10})
+            for rel, text in proj['files'].items():
+                pth = os.path.join(root, rel)
+                os.makedirs(os.path.dirname(pth), exist_ok=True)
+                with open(pth, 'w') as f:
+                    f.write(text)
+            cg, n = gen_callgraph(rng)
+            with open(os.path.join(root, 'vfcg.py'), 'w') as f:
+                f.write(cg)
+            reqs = []
+            for q in proj['queries'][:8]:
+                text, pos = gen_class.query_text(proj, q, None)
+                reqs.append(('assist', text, os.path.join(root, q['file']), tuple(pos)))
+            main = os.path.join(root, 'vfmain.py')
+            for k in range(n):
+                text = 'import vfcg\nx%d = vfcg.f%d([])\nx%d.\n' % (k, k, k)
+                reqs.append(('assist', text, main, (3, len('x%d.' % k))))
+                text = 'import vfcg\nvfcg.f%d([]).a0\n' % k
+                reqs.append(('location', text, main, (2, len('vfcg.f%d([]).a0' % k))))
+            reqs.append(('lint', 'import vfcg\nvfcg.f0([])\n', main, None))
+
+            def do(project, r):
+                kind, t, f, pos = r
+                try:
+                    with project.check_changes():
+                        if kind == 'lint':
+                            return json.dumps([list(x[:4]) for x in linter.lint(project, t, f)])
+                        if kind == 'assist':
+                            return json.dumps(assistant.assist(project, t, pos, f))
+                        return json.dumps(assistant.location(project, t, pos, f), sort_keys=True)
+                except Exception as e:
+                    return 'EXC:' + type(e).__name__
+            fresh = [do(Project([root]), r) for r in reqs]
+            part.count('fresh_project_answers', len(reqs))
+            nonempty = sum(1 for a in fresh if a not in ('["", []]', '[]') and not a.startswith('EXC'))
+            part.case('reqeval/%s/%d' % (arg['seed'], i), nontrivial=nonempty >= 4)
+            part.count('eval_requests_with_nonempty_answer', nonempty)
+            stop = False
+            for h in range(arg['nhist']):
+                order = list(range(len(reqs)))
+                kind = ['forward', 'reverse', 'shuffled', 'shuffled-twice'][h % 4]
+                if kind == 'reverse':
+                    order.reverse()
+                elif kind.startswith('shuffled'):
+                    rng.shuffle(order)
+                    if kind == 'shuffled-twice':
+                        order = order + order
+                project = Project([root])
+                part.count('request_histories')
+                part.hist('request_history_kind', 'eval:' + kind)
+                for j in order:
+                    got = do(project, reqs[j])
+                    part.count('request_answers_compared')
+                    if got != fresh[j]:
+                        part.violation('request-history-dependent:eval:%s' % reqs[j][0],
+                                       '%s request #%d (%s) answers %s after history %s, %s on a fresh Project' % (
+                                           reqs[j][0], j, reqs[j][1].splitlines()[-1][:60], got[:120], kind, fresh[j][:120]),
+                                       {'files': dict(proj['files'], **{'vfcg.py': cg}),
+                                        'requests': [[r[0], r[1], os.path.relpath(r[2], root), r[3]] for r in reqs],
+                                        'order': order, 'index': j, 'got': got[:2000], 'fresh': fresh[j][:2000]})
+                        stop = True
+                        break
+                if stop:
+                    break
+        finally:
+            shutil.rmtree(root, ignore_errors=True)
+    return part.dump()
+
+
+
 def main(run):
     q = run.quick
     args = []
@@ -362,6 +470,9 @@ def main(run):
     n_req = 48 if q else 1200
     for s in range(0, n_req, 6):
         jobs.append(['vf.props.c04:work_requests', {'seed': run.seed, 'start': s, 'count': 6, 'nhist': 4 if q else 12}])
+    n_eval = 64 if q else 1600
+    for s in range(0, n_eval, 4):
+        jobs.append(['vf.props.c04:work_requests_eval', {'seed': run.seed, 'start': s, 'count': 4, 'nhist': 4 if q else 12}])
     core.run_parts(run, 'vf.props.c04:dispatch', jobs, timeout=1800)
     return run.finish(
         rule='case = one analysed module (generated program, tiny loop module with all permutations, or real file) or one request set on a project; '
@@ -370,7 +481,7 @@ def main(run):
              'compared with the answer of that site as first query on a fresh analysis.  non-trivial = module with a read inside a loop and a site '
              'with >= 2 alternatives (request sets: >= 6 requests); distinct by generator index or file path',
         require=('oracle_first_queries', 'answers_compared', 'names_at_calls_inside_lint', 'lint_answers_compared', 'request_answers_compared',
-                 'modules_all_permutations'),
+                 'modules_all_permutations', 'eval_requests_with_nonempty_answer'),
         assumptions=['for real files the first-query oracle is computed for a sample of read sites (two thirds of them inside loops); all reads are queried in the histories',
                      'exceptions raised by the analysis are left to C08'])
 
